@@ -52,8 +52,8 @@ func (t *trSys) settle() {
 }
 
 type trLong struct {
-	c     *ucall
-	addr  string
+	c       *ucall
+	addr    string
 	kills   int // number of kills when it was started
 	budget0 int // dead pooled connections not yet used up when it was started
 }
@@ -401,18 +401,29 @@ func trSeqBodyK(prop string, keep bool, L int, alphabet []int, limits [][2]int, 
 		}
 		t.finish(prop == "C15")
 		// liveness (C15): unused connections are retired after KeepAlive and closed after IdleConnTimeout
-		t.advance(tKeepAlive+tIdle+3*tTick, "idle-out")
+		if prop != "C20" { // C20 closes the Transport with whatever is pooled at that moment
+			t.advance(tKeepAlive+tIdle+3*tTick, "idle-out")
+		}
 		for _, a := range []string{"a", "b"} {
 			if prop == "C15" && t.n.live[a] != 0 {
 				x.Fail("C15/unused-not-reclaimed", "%d connections to %q are still open after KeepAlive+IdleConnTimeout+3 ticks without use; events: %v", t.n.live[a], a, t.log)
 			}
 		}
-		t.call("b", formCall)
+		if prop != "C20" {
+			t.call("b", formCall)
+		}
 		t.shutdown()
 		for _, a := range []string{"a", "b"} {
 			if t.n.live[a] != 0 {
 				x.Fail("C15/close-leaves-connections", "%d connections to %q are still open after Transport.Close; events: %v", t.n.live[a], a, t.log)
 			}
+		}
+		if prop == "C20" {
+			for _, l := range t.long {
+				t.w[l.addr].open(l.c.tag)
+			}
+			vs.Quiesce()
+			census(x, t.n, fmt.Sprintf("transport after events %v", t.log))
 		}
 		x.Outcome("lim=%v %v maxlive=%d/%d dials=%d/%d", lim, t.log, t.n.maxLive["a"], t.n.maxLive["b"], t.n.dials["a"], t.n.dials["b"])
 	}
@@ -477,5 +488,8 @@ func init() {
 	register(&Scenario{Prop: "C14", Name: "c14/late-return-L3", Quick: []Bound{{1, 0}}, Thorough: []Bound{{2, 0}}, Body: trSeqBodyK("C14", true, 3, late, trLimits[:2], evLongA, evKillA), MaxSteps: 200000})
 	register(&Scenario{Prop: "C14", Name: "c14/late-return-L4", Quick: []Bound{}, Thorough: []Bound{{1, 0}}, Body: trSeqBodyK("C14", true, 4, late, trLimits[:2], evLongA, evKillA), MaxSteps: 200000, BudgetT: 300})
 	register(&Scenario{Prop: "C14", Name: "c14/concurrent", Quick: []Bound{{1, 0}}, Thorough: []Bound{{2, 0}}, Body: trConcBody("C14", trLimits[:3]), MaxSteps: 200000})
+	c20ab := []int{evCallA, evCallB, evGoA, evLongA, evStreamA, evTick, evPastKeepAlive, evCloseIdle, evKillA, evRestartA}
+	register(&Scenario{Prop: "C20", Name: "c20/transport-histories-L3", Quick: []Bound{{0, 0}}, Thorough: []Bound{{1, 0}}, Body: trSeqBody("C20", 3, c20ab, [][2]int{{2, 2}, {3, 2}, {1, 1}}), MaxSteps: 200000, OnlyKeys: []string{"C20/", "panic/", "livelock/"}})
+	register(&Scenario{Prop: "C20", Name: "c20/transport-histories-L4", Quick: []Bound{}, Thorough: []Bound{{0, 0}}, Body: trSeqBody("C20", 4, c20ab, [][2]int{{2, 2}, {3, 2}}), MaxSteps: 200000, OnlyKeys: []string{"C20/", "panic/", "livelock/"}, BudgetT: 300})
 	register(&Scenario{Prop: "C15", Name: "c15/seq-L4", Quick: []Bound{{0, 0}}, Thorough: []Bound{{1, 0}}, Body: trSeqBody("C15", 4, c15ab, trLimits[:3]), MaxSteps: 200000})
 }
